@@ -4,7 +4,7 @@ manifest can never drift from what ./run supports)."""
 import json, subprocess, os
 
 HOOK_COMMITS = ["61b94ce", "8f421be"]
-FIX_COMMITS = ["a51fb22", "b0c8ea5", "98c1f4b", "e663d4c", "32aebe9", "fc86303"]
+FIX_COMMITS = ["a51fb22", "b0c8ea5", "98c1f4b", "e663d4c", "32aebe9", "fc86303", "229945c"]
 
 # id -> (engine, category, technique, text, note, design_ref)
 CHECKS = {}
@@ -61,6 +61,17 @@ add("C08", "E", "exploration",
     "Encoding decided for every 32-bit integer; decoding decided for every byte string of length <=3 and structured 4/5-byte strings (thorough: every 4-byte string and every 5-byte encoding) against a reference decoder written from doc/int.md, including canonical <=> warning-free; packer/unpacker sequences of <=3/4 fields into every capacity of three backing stores with read-back, truncation and poisoning.",
     "Trusted: reference codec transcribed from doc/int.md.",
     "DESIGN.md 3/C08")
+
+add("C09", "E", "exploration",
+    "exhaustive enumeration of all ordered pairs of snapshots over small key universes; differential against the bundled DDNet C++ reference",
+    "All ordered pairs over universes of 4/5 keys x 3/4 data vectors (fixed-size universes: every pair; variable-size universes: pairs with a size change hit the recorded known finding): delta create -> apply directly, via bytes, via ints, the DDNet reference's delta applied here, serialization equal to the reference builder; limit families at 1024 items / 64 KiB.",
+    "Trusted: bundled DDNet reference within its own domain (type ids <= 0x3fff); values from a 6-element alphabet; items added in ascending key order.",
+    "DESIGN.md 3/C09")
+add("C10", "E", "exploration",
+    "bounded exhaustive enumeration of builder scripts (depth 4/5 over 45 operations) with a plain-map reference model and differential routes (bytes / ints / delta)",
+    "Every builder script up to the depth is built, serialized to bytes and ints, read back and compared through items(), item(type,id) over the whole key alphabet (ordinal and UUID types) and crc(); copies produced by read_with_delta likewise; the received copy is recycled and the UUID numbering observed through the next serialization.",
+    "Trusted: small alphabets (5 types, 3 ids, 3 data vectors); limits by linear families.",
+    "DESIGN.md 3/C10")
 
 NOT_YET = {}
 
